@@ -74,6 +74,41 @@ func VMModelLine(c *Compiled, inputs map[string]tengo.Object, maxAllocs int64, f
 	return line, nglobals, true
 }
 
+// vmConstsSexp renders the constant pool for the `vm` / `reloc` lines; ok=false: a constant the model cannot hold.
+func vmConstsSexp(bc *tengo.Bytecode) (string, bool) {
+	var consts []string
+	for _, k := range bc.Constants {
+		switch k := k.(type) {
+		case *tengo.CompiledFunction:
+			consts = append(consts, vmFnSexp(k))
+		case *tengo.Int, *tengo.Float, *tengo.Char, *tengo.String, *tengo.Bytes, *tengo.Bool, *tengo.Undefined:
+			consts = append(consts, L("v", Canon(k)))
+		default:
+			return "", false
+		}
+	}
+	return "(" + strings.Join(consts, " ") + ")", true
+}
+
+// RelocLine builds the `reloc` driver line: is `o` the program `u` with every function's instructions relocated
+// (Tengo.Model.VM.checkReloc; a passed check gives corresponding runs of the whole-VM model for every input,
+// Tengo.Props.C03VM)? ok=false: a constant the model cannot hold, or too large for the quadratic check.
+func RelocLine(u, o *tengo.Bytecode, maxBytes int) (string, bool) {
+	total := 0
+	for _, f := range Functions(u) {
+		total += len(f.Instructions)
+	}
+	if total > maxBytes {
+		return "", false
+	}
+	cu, ok1 := vmConstsSexp(u)
+	co, ok2 := vmConstsSexp(o)
+	if !ok1 || !ok2 {
+		return "", false
+	}
+	return L("reloc", cu, vmFnSexp(u.MainFunction), co, vmFnSexp(o.MainFunction)), true
+}
+
 // VMRealRun runs the real VM with the probe on and renders the outcome in the `vm` answer format.
 func VMRealRun(c *Compiled, inputs map[string]tengo.Object, maxAllocs int64, nglobals, keep int, timeout time.Duration) (string, RunOutcome) {
 	fnIdx := map[*byte]int{}
